@@ -401,6 +401,11 @@ void harness(void)
     LP(deallocate_n)(L, slot_addr(s), n);
     uint32_t post = check_inv(L, "");
     ASSERT(post == (pre | run), "deallocate(p, n): gives back every node the array occupied (ceil(n/node_size))");
+#if CFG_FILL
+    /* all n released bytes carry the freed pattern, except the link word at the start of each node */
+    { uint64_t j = nondet_u8(); ASSUME(j < n); uint64_t inner = j; for (int k2 = 0; k2 < S; ++k2) if (inner >= ns) inner -= ns;
+      if (inner >= 8) ASSERT(H8(slot_addr(s) + j) == 0xDD, "C17: a released array carries the freed-memory pattern over all its n bytes outside the link words"); }
+#endif
     ASSERT(H8(wa) == wv, "deallocate(p, n): other live nodes untouched");
     ASSERT(handler_calls == 0, "deallocate(p, n): a valid release is never reported");
 #elif OP == OP_MOVE_CTOR
